@@ -59,7 +59,7 @@ pub fn profile(name: &str) -> Profile {
         net_fail: 8,
         second_init: 4,
         exotic_strings: 10,
-        real_tool: 4,
+        real_tool: 1,
         min_ops: 12,
         max_ops: 40,
     };
